@@ -295,8 +295,12 @@ func cmdCheck(args []string) int {
 		if r.Incomplete != "" {
 			problems = append(problems, fmt.Sprintf("%s: incomplete: %s", job, r.Incomplete))
 		}
+		seenIE := map[string]bool{}
 		for _, ie := range r.Internal {
-			problems = append(problems, fmt.Sprintf("%s: %s", job, ie))
+			if !seenIE[ie] {
+				seenIE[ie] = true
+				problems = append(problems, fmt.Sprintf("%s: %s", job, ie))
+			}
 		}
 		if r.Cut > 0 {
 			problems = append(problems, fmt.Sprintf("%s: %d paths hit an unwinding bound", job, r.Cut))
